@@ -3,14 +3,20 @@
 Specs: spec/BBoxFilter.tla (the compiled box test: lat reject, pole accept, sorting network, unwrap loop, shift loops,
 overlap tests; theorems NoFalseNegative / NoFalsePositive / SortOK / UnwrapOK / HullIsMinArc / BranchFree),
 spec/ImageBounds.tla (sampling sets of WcsSampler._image_bounds; theorems EndsIncluded / ReachesImageEdge / Spacing /
-WalkOK), spec/Chunks.tla (chunk grid and chunk boxes; theorems Partition / BoxIsChunk / SamplerIsChunk / NoHoles).
+WalkOK), spec/FootprintMap.tla (the pixel -> sky map the box must be built with is the sampler's - distortion terms applied, the
+WCS's celestial frame converted to ICRS; theorems SameMapNoFalseNegative / EndsSuffice / CoreLosesTilesIffDistorted /
+NoFrameLosesTilesIffOffset), spec/Chunks.tla (chunk grid and chunk boxes; theorems Partition / BoxIsChunk / SamplerIsChunk / NoHoles).
 
 Binding (spec -> code): every TLC grid case of BBoxFilter is replayed into the compiled tile_intersects_latlon_bbox
 (directly and through samplers._latlon_tile_filter); TLC's sample sets are compared with the pixel coordinates a recording
-proxy WCS sees _image_bounds evaluate; TLC's chunk grids are compared with ChunkedJPEG2000Reader.chunk_spec and drive a fake
+WCS sees _image_bounds evaluate (by wcs_pix2world or all_pix2world: the sets are pixel coordinates), and the bounds it returns
+with the extremes of those samples through the sampler's own route (premise of FootprintMap); TLC's chunk grids are compared with ChunkedJPEG2000Reader.chunk_spec and drive a fake
 chunked image.  Property monitors on the real code (the sentences of C07): (a) every real tile to depth 4 with a pixel centre
 in a box is delivered by generate_tiles_filtered with the box filter, (b) every tile holding a finite sampled pixel of an
-image is accepted by WcsSampler.filter() on its whole path (directed witness search), (c) the same for chunk filters,
+image is accepted by WcsSampler.filter() on its whole path (directed witness search; footprints vary in size, scale, rotation,
+parity, position, the grid size the WCS remembers, the celestial FRAME the WCS names - ICRS, FK5 / FK4 / FK4-NO-E with an equinox,
+Galactic, ecliptic axes - and SIP DISTORTION polynomials of a few pixels; the footprint's true extent is the image edge sampled
+densely through the route the sampler uses), (c) the same for chunk filters,
 (d) filtered sampling == sample_layer and all chunks == whole map, pixel for pixel, through every public route by which a
 filter reaches a run (toast.sample_layer_filtered, Builder.toast_base with is_planet / coordsys, tile_fits / FitsTiler in TOAST
 mode whose downsampling stage is pruned by the UNION of the footprint filters of the collection's entries - the same file may
@@ -1572,6 +1578,7 @@ def run(ctx):
                 "BBoxFilter.tla at G, verdicts from TLC, all replayed; real tiles: every tile to depth 4 x seeded boxes, non-trivial = box "
                 "rejecting at least one tile; (b) footprints = seeded (size, scale, rotation, parity, position class) with sizes from a "
                 "critical list (all 1..64 x 1..64 in thorough); non-trivial = distinct footprint whose filter rejects some tile over it; "
+                "plus the WCS's celestial frame (FK5/FK4/FK4-NO-E with equinox, Galactic, ecliptic axes) and SIP distortion polynomials of 1-4 px; "
                 "(c),(d) chunk grids enumerated by TLC; whole layers compared pixel by pixel")
     scratch = ctx.mkdtemp("c07")
     pool = mp.Pool(8, initializer=_worker_init, initargs=(REPO,))       # forked before any thread exists
@@ -1594,7 +1601,22 @@ def _run(ctx, pool, scratch, quick, rng):
         {"nx": 36, "ny": 50, "scale": 0.8, "theta": 2.2, "parity": -1, "ra": 181.0, "dec": -35.0, "crpix": [15.0, 30.0], "depth": 2, "coordsys": "planetary", "route": "builder", "grid": "header-larger", "grid_delta": (5, 9)},
         {"nx": 64, "ny": 48, "scale": 0.5, "theta": 4.0, "parity": 1, "ra": 300.0, "dec": 48.0, "crpix": [32.5, 24.5], "depth": 3 if quick else 4, "coordsys": "astronomical", "grid": "header-smaller", "grid_delta": (20, 0)},
     ]
+    # the image's WCS names another celestial frame / carries distortion polynomials (the whole-sky comparison uses a
+    # projection of bounded radius for the distorted image: see the assumption on SIP ghosts at the end of _run)
+    sip_sin = {"a": [[2, 0, 3.0 / 1024], [1, 1, 1.0 / (32 * 24)]], "b": [[0, 2, -2.0 / 576], [2, 0, 1.0 / 1024]]}
+    wl_cases += [
+        {"nx": 48, "ny": 40, "scale": 1.1, "theta": 0.7, "parity": 1, "ra": 200.0, "dec": 25.0, "crpix": [24.5, 20.5], "depth": 3, "coordsys": "astronomical", "frame": "galactic", "grid": "right"},
+        {"nx": 40, "ny": 50, "scale": 0.9, "theta": 3.0, "parity": -1, "ra": 10.0, "dec": -40.0, "crpix": [18.0, 27.0], "depth": 2, "coordsys": "planetary", "route": "builder", "frame": "fk4", "equinox": 1950.0},
+        {"nx": 64, "ny": 48, "scale": 0.5, "theta": 4.0, "parity": 1, "ra": 300.0, "dec": 48.0, "crpix": [32.5, 24.5], "depth": 2 if quick else 4, "coordsys": "astronomical", "proj": "SIN", "sip": sip_sin},
+    ]
     if not quick:
+        wl_cases += [
+            {"nx": 40, "ny": 50, "scale": 0.9, "theta": 3.0, "parity": -1, "ra": 359.5, "dec": 40.0, "crpix": [18.0, 27.0], "depth": 3, "coordsys": "astronomical", "frame": "fk5", "equinox": 1900.0, "route": "builder-coordsys"},
+            {"nx": 60, "ny": 44, "scale": 0.7, "theta": 1.9, "parity": 1, "ra": 120.0, "dec": -62.0, "crpix": [30.5, 22.5], "depth": 3, "coordsys": "planetary", "frame": "fk4-no-e", "equinox": 1950.0, "grid": "header-right"},
+            {"nx": 56, "ny": 56, "scale": 0.8, "theta": 5.5, "parity": -1, "ra": 75.0, "dec": 8.0, "crpix": [28.5, 28.5], "depth": 3, "coordsys": "astronomical", "frame": "ecliptic", "route": "builder"},
+            {"nx": 100, "ny": 80, "scale": 0.4, "theta": 2.6, "parity": 1, "ra": 266.0, "dec": -29.0, "crpix": [50.5, 40.5], "depth": 4, "coordsys": "astronomical", "frame": "galactic", "grid": "sliced", "grid_delta": (7, 3)},
+            {"nx": 64, "ny": 48, "scale": 0.5, "theta": 1.0, "parity": -1, "ra": 150.0, "dec": -20.0, "crpix": [32.5, 24.5], "depth": 3, "coordsys": "planetary", "proj": "SIN", "sip": sip_sin, "frame": "galactic", "route": "builder"},
+        ]
         wl_cases += [
             {"nx": 90, "ny": 70, "scale": 0.7, "theta": 1.0, "parity": -1, "ra": 359.0, "dec": -20.0, "crpix": [45.5, 35.5], "depth": 4, "coordsys": "astronomical", "route": "builder"},
             {"nx": 120, "ny": 120, "scale": 0.3, "theta": 0.0, "parity": 1, "ra": 90.0, "dec": 90.0, "crpix": [60.5, 60.5], "depth": 3, "coordsys": "astronomical"},
@@ -1604,17 +1626,24 @@ def _run(ctx, pool, scratch, quick, rng):
     for i, c in enumerate(wl_cases):
         c.update(id=i, seed=ctx.seed * 1000 + i, scratch=scratch)
 
-    def ft_image(nx, ny, scale, ra, dec):
-        return {"nx": nx, "ny": ny, "scale": scale, "theta": rng.uniform(0, TWOPI), "parity": rng.choice([-1, 1]), "ra": ra, "dec": dec,
-                "crpix": [(nx + 1) / 2.0, (ny + 1) / 2.0]}
+    def ft_image(nx, ny, scale, ra, dec, frame="icrs"):
+        im = {"nx": nx, "ny": ny, "scale": scale, "theta": rng.uniform(0, TWOPI), "parity": rng.choice([-1, 1]), "ra": ra, "dec": dec,
+              "crpix": [(nx + 1) / 2.0, (ny + 1) / 2.0]}
+        if frame != "icrs":
+            im.update(frame=frame, equinox=1950.0 if frame.startswith("fk4") else 1960.0)
+        return im
     ra0 = rng.uniform(0, 360)
-    ft_cases = [{"layout": "same-file", "start": 3, "images": [ft_image(24, 20, 1.0, ra0, rng.uniform(-40, 40)),
+    # (tile_fits takes the WTML placement from the LAST image and refuses one whose axes are not RA/Dec: images in the
+    # Galactic frame come first, the last one is equatorial - ICRS, FK5 or FK4)
+    ft_cases = [{"layout": "same-file", "start": 3, "images": [ft_image(24, 20, 1.0, ra0, rng.uniform(-40, 40), "galactic"),
                                                               ft_image(20, 24, 1.2, (ra0 + rng.uniform(120, 240)) % 360, rng.uniform(-40, 40))]}]
     if not quick:
         for layout, n in (("separate", 2), ("mixed", 3), ("same-file", 3)):
             ra0 = rng.uniform(0, 360)
             ft_cases.append({"layout": layout, "start": 3, "images": [ft_image(rng.choice([20, 28, 40]), rng.choice([20, 28, 40]), rng.uniform(0.6, 1.2),
-                                                                              (ra0 + 360.0 * k / n + rng.uniform(-20, 20)) % 360, rng.uniform(-50, 50)) for k in range(n)]})
+                                                                              (ra0 + 360.0 * k / n + rng.uniform(-20, 20)) % 360, rng.uniform(-50, 50),
+                                                                              ["icrs", "fk5", "fk4"][len(ft_cases) % 3] if k == n - 1 else
+                                                                              ["galactic", "icrs", "fk4-no-e", "fk5"][(k + len(ft_cases)) % 4]) for k in range(n)]})
     for i, c in enumerate(ft_cases):
         c.update(id=i, seed=ctx.seed * 1000 + 500 + i, scratch=scratch)
     # chunk configurations: small ones exhaustively for the theorems, a few larger ones that are also sampled for real
@@ -1673,7 +1702,11 @@ def _run(ctx, pool, scratch, quick, rng):
         return ctx.tlc("MCImageBounds", extra={"MCImageBounds.tla": ib_module(range(1, 41))},
                        cfg_text=IB_CFG % (1, "INVARIANT ReachesImageEdge"), workers=1, timeout=600, expect_violation=True, count=False)
 
-    ex = ThreadPoolExecutor(4)
+    def tlc_fm():
+        return ctx.tlc("MCFootprintMap", workers=1, timeout=600)
+
+    ex = ThreadPoolExecutor(5)
+    fut_fm = ex.submit(tlc_fm)
     fut_ch = ex.submit(tlc_chunks)
     fut_bb = ex.submit(tlc_bbox, G, "INVARIANT HullIsMinArc" if quick else "INVARIANT HullIsMinArc\nINVARIANT BranchFree")
     fut_ib = ex.submit(tlc_ib)
@@ -1741,6 +1774,18 @@ def _run(ctx, pool, scratch, quick, rng):
     ctx.note("as_written_min_samples_1", "TLC refutes ReachesImageEdge: %s" % (r1.violated,) if r1.violated else "TLC did not refute ReachesImageEdge for MinSamples = 1")
     if not r1.violated:
         ctx.machinery("ImageBounds with MinSamples = 1 should violate ReachesImageEdge")
+    # which pixel -> sky map the box has to be built with (FootprintMap.tla): theorems checked by TLC for every case; the
+    # cases in which a wrong map loses tiles are written out for the evidence
+    rfm = fut_fm.result()
+    lost = {"core": [0, 0], "noframe": [0, 0]}
+    for row in rfm.json_lines("F"):
+        lost[row["v"]][0] += 1
+        lost[row["v"]][1] += bool(row["lost"])
+    if not (lost["core"][1] and lost["noframe"][1]):
+        ctx.machinery("FootprintMap: TLC emitted no case in which the core-only / frame-less map loses a tile: %s" % (lost,))
+    ctx.note("footprint_map_model", "F = sampler's map: no tile lost in any case (SameMapNoFalseNegative, EndsSuffice); core WCS only: tiles lost in %d of %d cases with a "
+             "distortion or a frame offset (exactly those with a distortion); frame taken for ICRS: %d of %d (exactly those with an offset)"
+             % (lost["core"][1], lost["core"][0], lost["noframe"][1], lost["noframe"][0]))
     # ---------------------------------------------------------------- collect
     foot_res, crashes = {}, []
     nreal = {"calls": 0, "npix": 0, "pop": 0}
@@ -1880,5 +1925,11 @@ def _run(ctx, pool, scratch, quick, rng):
                "_image_bounds is written for); a witness pixel must lie >= %.2f px inside the image; footprints keep (pixel size)*tan(latitude) <= 0.02 and an "
                "enclosed pole >= 20 px from every edge, so that the bend of an edge between two 1-px samples is far below that tolerance; around an ENCLOSED pole "
                "(2-D refinement, samples <= 1.4 px apart, bound short by < 1 px) the cap of two coarse cells is probed down to tiles of %g image px" % (MIN_TILE_PX, TAU, POLE_MIN_TILE_PX))
+    ctx.assume("frames: the footprint is where the SAMPLER finds the image (astropy's frame for the header, converted to ICRS); astropy %s gives ELON/ELAT axes no "
+               "ecliptic frame (it reads them as equatorial), for the sampler and for the filter alike. SIP footprints: corner amplitude 1-4 px, <= 1/8 of the shorter "
+               "half-axis and <= 0.04 h^2 (no fold, edge bend between 1-px samples < 0.02 px); a witness pixel of a distorted image must map back onto its direction. "
+               "The whole-sky comparison (d) uses a distorted image in a projection of bounded radius (SIN-SIP) for which astropy's iterative inverse converges or "
+               "fails cleanly everywhere: for TAN-SIP, WcsSampler.sampler() itself returns ghost data tens of degrees away from the image, where that inverse does "
+               "not converge (world_to_pixel_values hands back its last iterate) - reported separately, the filter rightly rejects those tiles" % (__import__("astropy").__version__,))
     ctx.assume("chunked sampling is compared with the real whole-map sampler bit for bit on every pixel (C07 states equality, no tolerance); only the comparison with the map pixel the harness itself computes from lon/lat skips pixel centres within 1e-6 cell of a cell boundary")
     ctx.assume("the compiled toasty._libtoasty is what runs (Cython absent: a .pyx edit cannot be exercised); _latlon_tile_filter / _image_bounds / _chunk_bounds are reached as private helpers for conformance only")
